@@ -1,7 +1,6 @@
 package c12
 
 import (
-	"crypto/sha256"
 	"fmt"
 	"sort"
 	"testing"
@@ -17,7 +16,6 @@ import (
 	"github.com/bronlabs/bron-crypto/pkg/mpc/sharing/accessstructures/threshold"
 	"github.com/bronlabs/bron-crypto/pkg/network"
 	"github.com/bronlabs/bron-crypto/pkg/proofs/sigma/compiler/fiatshamir"
-	"github.com/bronlabs/bron-crypto/pkg/signatures/ecdsa"
 	"github.com/bronlabs/bron-crypto/pkg/transcripts/hagrid"
 	"verif/harness/vlib"
 	"verif/harness/vlib/netsim"
@@ -95,6 +93,4 @@ func TestZZProbe(t *testing.T) {
 	run(t, "aor", ids, func(id proto.ID) (network.Runner[[]byte], error) {
 		return aor.NewAgreeOnRandomRunner(id, proto.SetOf(ids...), 32, hagrid.NewTranscript("x"), vlib.NewPRNG(1, fmt.Sprint("a", id)))
 	})
-	_ = ecdsa.NewSuite[*k256.Point, *k256.BaseFieldElement, *k256.Scalar]
-	_ = sha256.New
 }
